@@ -19,6 +19,17 @@ def load_known():
         return json.load(fh)["findings"]
 
 
+def dump_cover(pid):
+    """branch census (GMG_COVER=<dir>): which outcomes of every concrete condition the abstract runs of this check took"""
+    d = os.environ.get("GMG_COVER")
+    if not d:
+        return
+    from . import interp
+    os.makedirs(d, exist_ok=True)
+    with open(os.path.join(d, "%s.json" % pid), "w") as fh:
+        json.dump({k: sorted(v) for k, v in (interp.COVER or {}).items()}, fh, indent=0)
+
+
 class Check:
     def __init__(self, pid, tier, level="other", technique=""):
         self.pid = pid
@@ -99,6 +110,7 @@ class Check:
     # -------------------------------------------------------------- finish
     def finish(self, explanation, trusted_base=None, assumptions=None, exhaustive=None):
         wall = time.time() - self.t0
+        dump_cover(self.pid)
         for rid, r in self.rules.items():
             if r["found"] < r["floor"]:
                 self.broken.append("rule %s matched %d instances, floor is %d (confirmed by hand on the pinned tree): "
